@@ -201,6 +201,22 @@ def _arange(start, stop, step, length, dtype=None, like=None):
     return SArr((n,), lambda idx, a=a, b=b: a + b * z3.ToReal(idx[0]))
 
 
+def _eye(N, M=None, k=0, dtype=None, **kw):
+    """np.eye on concrete extents with a possibly symbolic diagonal offset"""
+    import z3
+
+    M = N if M is None else M
+    kz = core._z(k)
+    return SArr((N, M), lambda idx, kz=kz: z3.If(idx[1] - idx[0] == kz, z3.RealVal(1), z3.RealVal(0)))
+
+
+def _zeros(shape, dtype=None, **kw):
+    import z3
+
+    shape = (shape,) if not isinstance(shape, (tuple, list)) else tuple(shape)
+    return SArr(shape, lambda idx: z3.RealVal(0))
+
+
 def _zeros_like(a, dtype=None, order="K", subok=True, shape=None, meta=None):
     return _full_like(a, 0, shape=shape)
 
@@ -234,7 +250,7 @@ def _finalize(results):
     return r2
 
 
-KERNELS = dict(finalize=_finalize, concatenate_axes=_concatenate_axes, zeros_like=_zeros_like, ones_like=_ones_like, arange=_arange, concatenate_shaped=_concatenate_shaped, getitem=_getitem, getter=_getter, getter_nofancy=_getter, getter_inline=_getter,
+KERNELS = dict(eye=_eye, zeros=_zeros, finalize=_finalize, concatenate_axes=_concatenate_axes, zeros_like=_zeros_like, ones_like=_ones_like, arange=_arange, concatenate_shaped=_concatenate_shaped, getitem=_getitem, getter=_getter, getter_nofancy=_getter, getter_inline=_getter,
                concatenate3=concatenate_nested, full_like=_full_like)
 SAFE_NAMES = {"add", "sub", "mul", "neg", "getitem", "transpose", "identity"}
 
